@@ -878,13 +878,18 @@ def _vstore(d, who=None):
     return "[" + "; ".join('("%s", %s)' % (k, one(k, v)) for k, v in sorted(d.items())) + "]"
 
 
-def real_go_steplib(info, sysd, cset, n_sched, n_steps, rng, log):
+def real_go_steplib(info, sysd, cset, n_sched, n_steps, rng, log, cases=None, consts=None, cfg=None, direct=None):
     """random schedules on the REAL generated archetypes; the regenerated Go model must reproduce every observed attempt
-    for some choice vector within the observed ceilings. -> (attempts compared, committed, [mismatch dicts], error)"""
+    for some choice vector within the observed ceilings. -> (attempts compared, committed, [mismatch dicts], error)
+    cases/consts/cfg: explicit schedules (corpus files of other properties), the Coq CONSTANT values and harness cfg they need.
+    direct: a dict that receives {"agree", "agree_up_to_eager_error", "disagree": [..]}: on every observed pre-state,
+    for every candidate choice vector, run o symex_go of the Go body is also compared with the direct interpreter (Direct.v)."""
     import itertools
     name = info["name"]
     rs = REAL_SYSTEMS[name]
-    cfg = _const_cfg(sysd, cset)
+    cfg = cfg if cfg is not None else _const_cfg(sysd, cset)
+    if cases is not None:
+        return _real_core(info, sysd, cset, cases, cfg, log, consts, direct)
     # one probing case to learn the proc names
     rc, res, err = vlib.run_jsonl(rs["bin"], [{"id": 0, "system": name, "cfg": cfg, "sched": []}], timeout=120)
     if rc != 0 or not res or res[0].get("err"):
@@ -905,15 +910,30 @@ def real_go_steplib(info, sysd, cset, n_sched, n_steps, rng, log):
             except ValueError:
                 break
         c["sched"] = (pre + c["sched"])[:max(n_steps, len(pre) + 10)]
+    return _real_core(info, sysd, cset, cases, cfg, log, consts, direct)
+
+
+def _real_core(info, sysd, cset, cases, cfg, log, consts=None, direct=None):
+    import itertools
+    name = info["name"]
+    rs = REAL_SYSTEMS[name]
     rc, res, err = vlib.run_jsonl(rs["bin"], cases, timeout=900)
     if rc != 0 or len(res) != len(cases):
         return 0, 0, [], "harness %s failed (rc=%d, %d/%d results): %s" % (rs["bin"], rc, len(res), len(cases), err[-300:])
     e = ensure_walkdefs(info, log)
     if e:
         return 0, 0, [], e
+    if direct is not None:
+        with vlib.CoqLock():
+            for rel, deps in [("C02/Direct.v", BASE_DEPS[:2]), ("C02/DirectWalk.v", BASE_DEPS[:2] + ["C02/Show.v", "C02/Walk.v", "C02/Direct.v"])]:
+                if stale(rel, deps):
+                    rc_, o_, er_ = coqc(rel)
+                    if rc_ != 0:
+                        return 0, 0, [], "%s does not compile: %s" % (rel, (o_ + er_)[-500:])
     adapt = rs.get("adapt", lambda s: s)
     head = ("From PGV Require Import C02.Lang C02.Sem C02.Show C02.Walk C02.Bind_%s %s.%s_tla %s.%s_walkdefs.\nOpen Scope string_scope.\nOpen Scope Z_scope.\n"
-            "Definition W := %s_W %d.\n"
+            "Definition W0 := %s_W %d.\n"
+            "Definition W : wsys := WDEF.\n"
             "Definition base : gstate := match init_state W (w_init W) [] [] with Ok s => s | Err _ => [] end.\n"
             "Definition inst (p : string) : instance := match lookup p %s_instances with Some i => i | None => mkInst \"\" [] [] end.\n"
             "Fixpoint upd_path (v : value) (path : list value) (nv : value) : value :=\n"
@@ -924,7 +944,36 @@ def real_go_steplib(info, sysd, cset, n_sched, n_steps, rng, log):
             "  match lookup x base with Some f => match vapply f self with\n"
             "    | Ok v0 => fold_left (fun v u => upd_path v (fst u) (snd u)) ups v0 | Err _ => VDefault end | None => VDefault end.\n"
             % (name, GEN_NAME, name, GEN_NAME, name, name, cset, name, name))
+    head = head.replace("WDEF", "W0" if consts is None else
+                        "mkW (w_dgo W0) (w_dtla W0) [%s] (w_init W0) (w_procs W0)" % "; ".join('("%s", %s)' % c for c in consts))
+    if direct is not None:
+        procs_ = {}
+        for l in info["labels"]:
+            if "godef" in l:
+                procs_.setdefault(l["proc"], []).append('("%s", %s)' % (l["tla_action"], l["godef"]))
+        btab = "; ".join('("%s", (%s_inst_%s, [%s]))' % (p_, name, cid(p_), "; ".join(rws)) for p_, rws in procs_.items())
+        head = head.replace("C02.Walk C02.Bind_", "C02.Walk C02.Direct C02.DirectWalk C02.Bind_").replace(
+            "%s.%s_tla %s.%s_walkdefs" % (GEN_NAME, name, GEN_NAME, name),
+            "%s.%s_go %s.%s_tla %s.%s_trees %s.%s_walkdefs" % (GEN_NAME, name, GEN_NAME, name, GEN_NAME, name, GEN_NAME, name))
+        head += ("Definition B : btable := [%s].\n"
+                 "Definition direct_obs (proc lbl : string) (self : value) (gpre lpre : list (string * value)) (cands : list (list nat)) : string :=\n"
+                 "  let pre := obs_state %s_tla_locals (inst proc) self base gpre lpre in\n"
+                 "  let r := env_of W pre self in\n"
+                 "  match lookup proc (w_procs W), lookup proc B with\n"
+                 "  | Some (_, table), Some (ins, bodies) =>\n"
+                 "      match lookup lbl table, lookup lbl bodies with\n"
+                 "      | Some (gt, _), Some body =>\n"
+                 "          cat (map (fun ks => match direct_agrees (w_dgo W) EVAL_FUEL %s_tla_locals ins body gt r ks with\n"
+                 "                              | O => \"#@#DA0 \" | S O => \"#@#DA1 \"\n"
+                 "                              | _ => \"#@#DIRECT process=\" ++ proc ++ \" #@#label=\" ++ lbl ++ \" #@#self=\" ++ show_value self ++\n"
+                 "                                     \" #@#choices=\" ++ show_nats ks ++ \" #@#state=\" ++ show_vstore pre ++\n"
+                 "                                     \" #@#symbolic=\" ++ show_outcome (run (w_dgo W) EVAL_FUEL gt r ks) ++\n"
+                 "                                     \" #@#direct=\" ++ show_outcome (exec_body (w_dgo W) EVAL_FUEL %s_tla_locals ins r body ks) ++ \" #@#END\"\n"
+                 "                              end) cands)\n"
+                 "      | _, _ => \"#@#DANOLABEL \" end\n"
+                 "  | _, _ => \"#@#DANOLABEL \" end.\n" % (btab, name, name, name))
     rows, defs, committed = [], [], 0
+    drows = []
     gi = 0
     for r in res:
         if r.get("err"):
@@ -959,6 +1008,10 @@ def real_go_steplib(info, sysd, cset, n_sched, n_steps, rng, log):
             rows.append('real_obs_ok W %s_tla_locals (inst "%s") "%s" "%s" (VNum %d) base g%d %s [%s]%%nat "%s" g%d %s' % (
                 name, tproc, tproc, lbl, self_, cur, _vstore(lpre, (tproc, self_)),
                 "; ".join("[" + "; ".join(str(k) for k in c) + "]" for c in cands), kind, gi, _vstore(lpost, (tproc, self_))))
+            if direct is not None:
+                drows.append('direct_obs "%s" "%s" (VNum %d) g%d %s [%s]%%nat' % (
+                    tproc, lbl, self_, cur, _vstore(lpre, (tproc, self_)),
+                    "; ".join("[" + "; ".join(str(k) for k in c) + "]" for c in cands[:24])))
             if so["outcome"] == "commit":
                 locs[p] = lpost
             cur = gi
@@ -971,6 +1024,26 @@ def real_go_steplib(info, sysd, cset, n_sched, n_steps, rng, log):
         if rc != 0:
             return 0, 0, [], "evaluation of the real-Go comparison of %s failed: %s" % (name, (o + err)[-800:])
         out += o
+    if direct is not None:
+        dout = ""
+        for s0_ in range(0, len(drows), 150):
+            body = head + "".join(defs) + "Definition R := Eval vm_compute in cat [%s].\nPrint R.\n" % ";\n ".join(drows[s0_:s0_ + 150])
+            rc, o, err = coq_scratch("C02_reald_%s_%d_%d" % (name, cset, os.getpid()), body, timeout=1500)
+            if rc != 0:
+                return 0, 0, [], "evaluation of the direct-interpreter comparison of %s failed: %s" % (name, (o + err)[-800:])
+            dout += o
+        dflat = re.sub(r"\s+", " ", dout).replace('""', '"')
+        direct["agree"] = direct.get("agree", 0) + dflat.count("#@#DA0")
+        direct["agree_up_to_eager_error"] = direct.get("agree_up_to_eager_error", 0) + dflat.count("#@#DA1")
+        direct["no_label"] = direct.get("no_label", 0) + dflat.count("#@#DANOLABEL")
+        for mm in dflat.split("#@#DIRECT")[1:]:
+            mm = mm.split("#@#END")[0]
+            d = {"system": name}
+            for part in mm.split("#@#"):
+                if "=" in part:
+                    k, v = part.split("=", 1)
+                    d[k.strip()] = v.strip()
+            direct.setdefault("disagree", []).append(d)
     flat = re.sub(r"\s+", " ", out).replace('""', '"')
     mism = []
     for mm in flat.split("#@#REAL")[1:]:
